@@ -57,7 +57,8 @@ ANCHORS = [
 ]
 REQUIRED = {'calls_made': 5000, 'repeats_compared': 2000,
             'user_model_mutations': 100, 'poisoned_calls': 500,
-            'parallel_comparisons': 8, 'protected_arguments': 5000}
+            'parallel_comparisons': 8, 'protected_arguments': 5000,
+            'work_vector_calls': 500}
 
 TIMES = np.array([0.4, 1.0, 1.9, 2.6])
 
@@ -336,6 +337,7 @@ def run_history(ctx, rng, world, n_calls, feats, schedule=None):
     first = {}
     kinds = []
     mutations = []
+    work = {}      # caller-owned work vectors, overwritten in place
     for step in range(n_calls):
         if schedule is not None:
             ei, ai = schedule[step]
@@ -346,6 +348,16 @@ def run_history(ctx, rng, world, n_calls, feats, schedule=None):
         if ai is None:
             ai = int(rng.integers(len(args)))
         arg = args[ai % len(args)]
+        # a caller may keep ONE work vector and overwrite it in place
+        # between evaluations (line searches, finite differences, samplers)
+        if rng.random() < 0.35:
+            w = work.get(len(arg))
+            if w is None:
+                w = np.empty(len(arg))
+                work[len(arg)] = w
+            w[:] = arg
+            arg = w
+            ctx.count('work_vector_calls')
         before = arg.copy()
         poisoned = rng.random() < 0.3
         poison.set_on(poisoned)
